@@ -1,4 +1,5 @@
 pub mod c12;
+pub mod gds;
 pub mod c13;
 pub mod c15;
 pub mod c17;
@@ -6,6 +7,9 @@ pub mod c17;
 pub fn gen(prop: &str, thorough: bool, seed: u64, out: &mut Vec<String>) {
     let mut rng = crate::rng::Rng::new(seed);
     match prop {
+        "C01" | "C02" => gds::gen_c01(thorough, &mut rng, out),
+        "C03" => gds::gen_c03(thorough, &mut rng, out),
+        "C10" => gds::gen_c10(thorough, &mut rng, out),
         "C12" => c12::gen(thorough, &mut rng, out),
         "C13" => c13::gen(thorough, &mut rng, out),
         "C15" => c15::gen(thorough, &mut rng, out),
@@ -15,6 +19,10 @@ pub fn gen(prop: &str, thorough: bool, seed: u64, out: &mut Vec<String>) {
 }
 pub fn oracle(prop: &str, line: &str) -> String {
     let r = std::panic::catch_unwind(|| match prop {
+        "C01" => gds::oracle_c01(line),
+        "C02" => gds::oracle_c02(line),
+        "C03" => gds::oracle_c03(line),
+        "C10" => gds::oracle_c10(line),
         "C12" => c12::oracle(line),
         "C13" => c13::oracle(line),
         "C15" => c15::oracle(line),
@@ -25,6 +33,7 @@ pub fn oracle(prop: &str, line: &str) -> String {
 }
 pub fn tag(prop: &str, line: &str) -> String {
     match prop {
+        "C01" | "C02" | "C03" | "C10" => gds::tag(line),
         "C12" => c12::tag(line),
         "C13" => c13::tag(line),
         "C15" => c15::tag(line),
